@@ -449,12 +449,29 @@ func (g *c20G) end(rq *c20req) {
 	g.log.reqs = append(g.log.reqs, rq)
 }
 
+// httptest.NewRequest panics on a malformed target
+func c20NewRequest(method, target string, rd io.Reader) (req *http.Request) {
+	defer func() {
+		if recover() != nil {
+			req = nil
+		}
+	}()
+	return httptest.NewRequest(method, target, rd)
+}
+
 func (g *c20G) call(fam, method, target, body, ct string, hdr map[string]string) *httptest.ResponseRecorder {
 	var rd io.Reader
 	if body != "" {
 		rd = strings.NewReader(body)
 	}
-	req := httptest.NewRequest(method, target, rd)
+	req := c20NewRequest(method, target, rd)
+	if req == nil {
+		// a target assembled from an answer of the provider that is not a usable URL (e.g. a callback id read
+		// from a page that carries an error instead): the request cannot be sent; the client sees a failure
+		rec := httptest.NewRecorder()
+		rec.WriteHeader(400)
+		return rec
+	}
 	req = req.WithContext(context.WithValue(req.Context(), c20key{}, g.log))
 	if ct != "" {
 		req.Header.Set("Content-Type", ct)
